@@ -7,6 +7,7 @@ import (
 	"os"
 	"sort"
 	"strings"
+	"sync"
 	"testing"
 	"time"
 
@@ -531,6 +532,69 @@ func scenario(rec *mon.Recorder, c int) {
 		r := rng.Intn(10)
 		if forceLag && s == nSteps/2 && down < 0 {
 			r = 9
+		}
+		if s == 2 && c%2 == 0 {
+			// several clients at once through one node: same-shaped creations, then their deletions, all overlapping.
+			// Whatever is acknowledged is what every node lists, now and after a restart.
+			burst := 6
+			type res struct {
+				e  entry
+				ok bool
+			}
+			out := make([]res, burst)
+			var wg sync.WaitGroup
+			dims := make([]uint32, burst)
+			for i := range dims {
+				attemptDim++
+				dims[i] = attemptDim
+			}
+			for i := 0; i < burst; i++ {
+				wg.Add(1)
+				go func(i int) {
+					defer wg.Done()
+					cl.Guard(6*time.Second, func() {
+						d, err := via.DM().Create(ctx, &pb.Dataset{Dimension: dims[i], PartitionCount: 1, ReplicationFactor: 1, Space: pb.Space_Euclidean})
+						if err == nil {
+							out[i] = res{fromMeta(d.Meta()), true}
+						}
+					})
+				}(i)
+			}
+			wg.Wait()
+			var made []entry
+			for i, o := range out {
+				if o.ok {
+					model[o.e.id] = o.e
+					made = append(made, o.e)
+				} else {
+					openAttempts[dims[i]] = true
+				}
+			}
+			steps = append(steps, fmt.Sprintf("%d concurrent creates via %d, %d acknowledged", burst, via.Id, len(made)))
+			delOK := make([]bool, len(made))
+			for i := range made {
+				wg.Add(1)
+				go func(i int) {
+					defer wg.Done()
+					cl.Guard(6*time.Second, func() { delOK[i] = via.DM().Delete(ctx, made[i].id) == nil })
+				}(i)
+			}
+			wg.Wait()
+			nd := 0
+			for i, e := range made {
+				if delOK[i] {
+					deleted[e.id] = e
+					delete(model, e.id)
+					nd++
+				} else {
+					// outcome unknown: the dataset may or may not be there
+					delete(model, e.id)
+					openAttempts[e.dim] = true
+				}
+			}
+			steps = append(steps, fmt.Sprintf("%d concurrent deletes via %d, %d acknowledged", len(made), via.Id, nd))
+			rec.Count("concurrent_catalogue_bursts", 1)
+			continue
 		}
 		switch {
 		case r < 4: // create
